@@ -5,6 +5,7 @@ on the atoms of a case, computed WITHOUT going through mashumaro)."""
 from __future__ import annotations
 
 import collections
+import collections.abc
 import dataclasses
 import datetime
 import decimal
@@ -194,6 +195,7 @@ _MOD_COUNTER = [0]
 
 
 DEFAULT_ANNOT = False   # wrapper mode new Reg objects start with (see realize / core.Ctx.wrapped)
+WRAP_MODES = (True, "newtype", "typealias", "builtin", "abc")
 
 
 class Reg:
@@ -250,11 +252,28 @@ MAP_CLASS = {
 COLL_CLASS = {"list": list, "set": set, "frozenset": frozenset, "deque": collections.deque, "tuple": tuple, "chainmap": collections.ChainMap}
 
 
+COLL_BUILTIN = {"list": list, "set": set, "frozenset": frozenset, "deque": collections.deque}
+MAP_BUILTIN = {"dict": dict, "odict": collections.OrderedDict, "counter": collections.Counter, "mproxy": types.MappingProxyType, "ddict": collections.defaultdict}
+COLL_ABC = {"list": [collections.abc.Sequence, collections.abc.MutableSequence, typing.Sequence, typing.MutableSequence],
+            "set": [collections.abc.Set, collections.abc.MutableSet, typing.AbstractSet, typing.MutableSet]}
+MAP_ABC = {"dict": [collections.abc.Mapping, collections.abc.MutableMapping, typing.Mapping, typing.MutableMapping]}
+
+
+def _pick(options, ty):
+    """deterministic choice among spellings (depends on the wire type only)"""
+    import zlib
+
+    return options[zlib.crc32(repr(ty).encode()) % len(options)]
+
+
 def realize(ty, reg: Reg):
     """wire type -> real Python annotation (creating classes on the way).  With `reg.annot` every
     annotation (at every depth) is wrapped in typing.Annotated[..., "verif"]: a metadata wrapper the
     library must see through, so the model is the same.  `reg.annot` may also be "newtype" / "typealias":
-    the non-special forms are wrapped in typing.NewType / typing.TypeAliasType instead."""
+    the non-special forms are wrapped in typing.NewType / typing.TypeAliasType instead; "builtin" spells
+    containers as PEP 585 generics (list[int], tuple[int, ...], collections.deque[int]) and unions with `|`,
+    "abc" spells list / set / dict annotations as (typing or collections.abc) Sequence / MutableSequence /
+    Set / MutableSet / Mapping / MutableMapping, which the library documents as deserializing to list / set / dict."""
     reg._rdepth = getattr(reg, "_rdepth", 0) + 1
     try:
         t = _realize(ty, reg)
@@ -265,6 +284,8 @@ def realize(ty, reg: Reg):
         return t
     if reg._rdepth == 0 and not isinstance(ty, str) and ty[0] == "dc":
         return t   # the root class itself is what the mixin methods are called on
+    if mode in ("builtin", "abc"):
+        return t   # spelling modes act inside _realize
     if mode in (True, "annotated"):
         return typing.Annotated[t, "verif"]
     tag = ty if isinstance(ty, str) else ty[0]
@@ -312,31 +333,63 @@ def _realize(ty, reg: Reg):
     if tag == "lit":
         consts = tuple(from_v(c, reg) for c, _w in ty[1])
         return typing.Literal[consts]
+    spell = getattr(reg, "annot", False)
+    builtin = spell == "builtin"    # PEP 585 generics and PEP 604 unions
     if tag == "opt":
-        return typing.Optional[realize(ty[1], reg)]
+        inner = realize(ty[1], reg)
+        if builtin:
+            try:
+                return inner | None
+            except TypeError:
+                pass
+        return typing.Optional[inner]
     if tag == "union":
-        return typing.Union[tuple(realize(t, reg) for t in ty[1])]
+        # inside union members the abstract spellings are NOT transparent: members are tried in turn and a
+        # Sequence / Mapping packer accepts other values than a list / dict packer (finding K10 territory)
+        reg._in_union = getattr(reg, "_in_union", 0) + 1
+        try:
+            members = [realize(t, reg) for t in ty[1]]
+        finally:
+            reg._in_union -= 1
+        if builtin:
+            try:
+                import functools
+                import operator
+
+                return functools.reduce(operator.or_, members)
+            except TypeError:
+                pass
+        return typing.Union[tuple(members)]
     if tag == "coll":
         o = ty[1]
+        if builtin:
+            return COLL_BUILTIN[o][realize(ty[2], reg)]
+        if spell == "abc" and o in COLL_ABC and not getattr(reg, "_in_union", 0):
+            return _pick(COLL_ABC[o], ty)[realize(ty[2], reg)]
         return COLL_TYPING[o][realize(ty[2], reg)]
     if tag == "map":
         o = ty[1]
         if o == "counter":
-            return typing.Counter[realize(ty[2], reg)]
+            return (collections.Counter if builtin else typing.Counter)[realize(ty[2], reg)]
+        if builtin:
+            return MAP_BUILTIN[o][realize(ty[2], reg), realize(ty[3], reg)]
+        if spell == "abc" and o in MAP_ABC and not getattr(reg, "_in_union", 0):
+            return _pick(MAP_ABC[o], ty)[realize(ty[2], reg), realize(ty[3], reg)]
         return MAP_TYPING[o][realize(ty[2], reg), realize(ty[3], reg)]
     if tag == "chain":
-        return typing.ChainMap[realize(ty[1], reg), realize(ty[2], reg)]
+        return (collections.ChainMap if builtin else typing.ChainMap)[realize(ty[1], reg), realize(ty[2], reg)]
+    T = tuple if builtin else typing.Tuple
     if tag == "tvar":
-        return typing.Tuple[realize(ty[1], reg), ...]
+        return T[realize(ty[1], reg), ...]
     if tag == "tfix":
         if not ty[1]:
-            return typing.Tuple[()]
-        return typing.Tuple[tuple(realize(t, reg) for t in ty[1])]
+            return T[()]
+        return T[tuple(realize(t, reg) for t in ty[1])]
     if tag == "tunp":
         pre = [realize(t, reg) for t in ty[1]]
         mid = realize(ty[2], reg)
         post = [realize(t, reg) for t in ty[3]]
-        return typing.Tuple[(*pre, typing.Unpack[typing.Tuple[mid, ...]], *post)]
+        return T[(*pre, typing.Unpack[T[mid, ...]], *post)]
     if tag == "nt":
         cid = ty[1]
         if cid not in reg.by_id:
